@@ -208,8 +208,17 @@ fn public_cases<B: Backend, P: Prims>(opts: &Opts, rep: &mut Report, idx: &mut u
             json!({"backend": B::NAME, "reference_family": P::NAME, "secret_key": hx_short(&sk_raw), "public_key": hx_short(&pk_raw), "msg": hx_short(&msg),
                    "msg_len": msg.len(), "footer": hx_short(&footer), "aad": hx_short(&aad), "what": what, "token": tok.chars().take(400).collect::<String>()})
         };
-        // (a/b) library signs; an independent verifier must accept; deterministic schemes must match bit for bit
-        match guard(|| kp.seal(&msg, &footer, &aad)) {
+        // (a/b) library signs - half of the time through a *clone* of the key; an independent verifier
+        // must accept; deterministic schemes must match bit for bit
+        let signer = if rng.chance(1, 2) {
+            match &kp {
+                KeyPair::Public(sk, pk) => KeyPair::<B>::Public(sk.clone(), pk.clone()),
+                _ => unreachable!(),
+            }
+        } else {
+            KeyPair::<B>::from_raw(Purp::Public, &sk_raw).expect("generated key")
+        };
+        match guard(|| signer.seal(&msg, &footer, &aad)) {
             Ok(Ok(tok)) => {
                 let (_, body, f) = split_token(&tok);
                 if r::public_verify::<P>(B::VER, &pk_raw, &body, &f, &aad).as_deref() != Some(&msg[..]) {
@@ -253,11 +262,66 @@ fn public_cases<B: Backend, P: Prims>(opts: &Opts, rep: &mut Report, idx: &mut u
     }
 }
 
+/// tokens of a payload type with a non-empty encoding suffix ("v4x.local."): the suffix is part of
+/// the authenticated header
+fn suffix_cases<B: Backend, P: Prims>(opts: &Opts, rep: &mut Report, idx: &mut u64) {
+    let stream = format!("c03.{}.suffix", B::NAME);
+    let n = if B::VER == 1 { opts.size(200, 2000) } else { opts.size(1500, 20000) };
+    let mut krng = Rng::derive(opts.seed, &stream, 0);
+    let sk_raw = B::gen_secret(&mut krng);
+    for _ in 0..n {
+        *idx += 1;
+        if !opts.mine(*idx) {
+            continue;
+        }
+        let mut rng = Rng::derive(opts.seed, &stream, *idx);
+        let len = gen_len(&mut rng, false);
+        let msg = gen_bytes(&mut rng, len);
+        let footer = gen_footer(&mut rng);
+        let aad = gen_aad::<B>(&mut rng);
+        let key: [u8; 32] = rng.arr();
+        let nonce = rng.bytes(B::LOCAL_NONCE);
+        let kl = KeyPair::<B>::Local(local_key::<B>(&key));
+        let kp = KeyPair::<B>::from_raw(Purp::Public, &sk_raw).expect("key");
+        let detail = |what: &str, tok: &str| json!({"backend": B::NAME, "payload_suffix": "x", "key": hx(&key), "nonce": hx(&nonce), "msg": hx_short(&msg), "footer": hx_short(&footer), "aad": hx_short(&aad), "what": what, "token": tok.chars().take(300).collect::<String>()});
+        r::set_suffix("x");
+        let want = join_token(&kl.header_x(), &r::local_seal::<P>(B::VER, &key, &nonce, &msg, &footer, &aad), &footer);
+        match guard(|| kl.seal_x(Some(&nonce), &msg, &footer, &aad)) {
+            Ok(Ok(t)) if t == want => {}
+            Ok(Ok(t)) => rep.violation(&format!("C03|{}|local|seal-differs-from-reference:payload-suffix", B::NAME), detail("token with a payload-encoding suffix differs from the reference", &t)),
+            _ => rep.violation(&format!("C03|{}|local|seal-failed:payload-suffix", B::NAME), detail("seal failed", "")),
+        }
+        if !matches!(guard(|| kl.open_x(&want, &aad)), Ok(Ok((m, _))) if m == msg) {
+            rep.violation(&format!("C03|{}|local|reference-token-rejected:payload-suffix", B::NAME), detail("reference-built suffixed token not accepted", &want));
+        }
+        match guard(|| kp.seal_x(None, &msg, &footer, &aad)) {
+            Ok(Ok(t)) => {
+                let (_, body, f) = split_token(&t);
+                if r::public_verify::<P>(B::VER, &kp.raw().1, &body, &f, &aad).as_deref() != Some(&msg[..]) {
+                    rep.violation(&format!("C03|{}|public|independent-verifier-rejects:payload-suffix", B::NAME), detail("signature of a suffixed token is not over the specification's header", &t));
+                }
+                // the same bytes under the un-suffixed header must NOT verify (and vice versa)
+                let relabelled = join_token(&kp.header(), &body, &f);
+                if matches!(guard(|| kp.open(&relabelled, &aad)), Ok(Ok(_))) {
+                    rep.violation(&format!("C03|{}|public|suffix-not-authenticated", B::NAME), detail("a suffixed token verifies under the un-suffixed header", &relabelled));
+                }
+            }
+            _ => rep.violation(&format!("C03|{}|public|sign-failed:payload-suffix", B::NAME), detail("sign failed", "")),
+        }
+        r::set_suffix("");
+        rep.case(&format!("{}.payload-suffix", B::NAME), fnv_parts(&[B::NAME.as_bytes(), &key, &nonce, &msg, &footer, &aad]), true);
+        rep.sample_class(&format!("{}.payload-suffix", B::NAME), 1, || detail("suffixed tokens agree with the reference", &want));
+    }
+}
+
 fn backend<B: Backend, P: Prims>(opts: &Opts, rep: &mut Report) {
     if !opts.wants_backend(B::NAME) {
         return;
     }
     let mut idx = 0u64;
+    if opts.wants_part("suffix") {
+        suffix_cases::<B, P>(opts, rep, &mut idx);
+    }
     if opts.wants_part("local") {
         local_cases::<B, P>(opts, rep, &mut idx);
     }
